@@ -29,6 +29,9 @@ enum End {
     /// a last frame and the end of stream become visible together
     FrameThenEof,
     Malformed,
+    /// the socket reports an error on the next read / on the next write (a call makes the client write)
+    ReadError,
+    WriteError,
     BogusChannel,
     ContentOnChannel0,
 }
@@ -143,6 +146,17 @@ fn run(end: End, channels: usize, consumers: usize, call_in_flight: bool) {
             ctl.close_socket();
             connection.close()
         }
+        End::ReadError => {
+            ctl.fail_reads();
+            connection.close()
+        }
+        End::WriteError => {
+            ctl.fail_writes();
+            // something to write: a call from another thread (it must come back with an error, not hang)
+            let victim = connection.open_channel(Some(13));
+            assert!(victim.is_err(), "{}: a call whose request cannot be written returned Ok", what);
+            connection.close()
+        }
         End::Malformed => {
             ctl.inject(vec![1, 0, 1, 0, 0, 0, 4, 0xde, 0xad, 0xbe, 0xef, 0x00]); // a method frame whose frame-end octet is wrong
             connection.close()
@@ -165,6 +179,8 @@ fn run(end: End, channels: usize, consumers: usize, call_in_flight: bool) {
         (End::ServerClose, Err(Error::ServerClosedConnection { code: 320, message })) if message == "CONNECTION_FORCED - bye" => {}
         (End::Eof, Err(Error::UnexpectedSocketClose)) => {}
         (End::Malformed, Err(Error::MalformedFrame)) => {}
+        (End::ReadError, Err(Error::IoErrorReadingSocket { .. })) => {}
+        (End::WriteError, Err(Error::IoErrorWritingSocket { .. })) => {}
         (End::BogusChannel, Err(Error::ReceivedFrameWithBogusChannelId { channel_id: 77 })) => {}
         (End::ContentOnChannel0, Err(Error::ClientException)) => {}
         (_, other) => panic!("{}: Connection::close returned {:?}", what, other.as_ref().map_err(|e| e.to_string())),
@@ -242,7 +258,7 @@ fn run(end: End, channels: usize, consumers: usize, call_in_flight: bool) {
 #[test]
 fn verif_sweep_c08_c05_every_way_a_connection_ends() {
     let mut count = 0;
-    for &end in &[End::ClientClose { hang_up_behind: false }, End::ClientClose { hang_up_behind: true }, End::ClientCloseWithLateSubmissions, End::ClientCloseMeetsServerClose, End::ServerClose, End::Eof, End::FrameThenEof, End::Malformed, End::BogusChannel, End::ContentOnChannel0] {
+    for &end in &[End::ClientClose { hang_up_behind: false }, End::ClientClose { hang_up_behind: true }, End::ClientCloseWithLateSubmissions, End::ClientCloseMeetsServerClose, End::ServerClose, End::Eof, End::FrameThenEof, End::Malformed, End::ReadError, End::WriteError, End::BogusChannel, End::ContentOnChannel0] {
         for &channels in &[0usize, 2] {
             for &consumers in &[0usize, 2] {
                 for &call_in_flight in &[false, true] {
